@@ -8,7 +8,8 @@
    name <s>             -> 0 | 1 <file> <file>
    frozen <ref>         -> NONE | <file>
    rfrozen <cache path> <ref> <bytes=digest> ...    -> NONE | <path>
-   uri <base path> <uri> -> OK <path> | REFUSED | RAISE
+   uri <base path> <uri> -> OK <path> <complete 0|1> | REFUSED | RAISE      (validate_source_uri of the current source)
+   stale <base path> <uri> -> HASHED <path> | ERROR | RAISE                 (_check_single_snapshot, allowed_root = base)
    ext <name>           -> <suffix> <compound> <0|1 write> *)
 let cur_fs = ref (NDir [])
 let cur_cwd = ref []
@@ -45,8 +46,11 @@ let handle l =
   | "rfrozen" :: c :: r :: tbl ->
       (match resolve_frozen_tbl (List.map pair_of_tok tbl) !cur_fs (path_of_tok c) (str_of_tok r) with
        | Some p -> tok_of_path p | None -> "NONE")
-  | ["uri"; b; u] -> (match validate_uri !cur_fs (path_of_tok b) (str_of_tok u) with
-       | UOk p -> "OK " ^ tok_of_path p | URefused -> "REFUSED" | URaise -> "RAISE")
+  | ["uri"; b; u] -> (match validate_uri_src !cur_fs (path_of_tok b) (str_of_tok u) with
+       | UOk p -> "OK " ^ tok_of_path p ^ " " ^ bool_tok (uri_complete_src !cur_fs (path_of_tok b) (str_of_tok u))
+       | URefused -> "REFUSED" | URaise -> "RAISE")
+  | ["stale"; b; u] -> (match stale_uri_src !cur_fs (path_of_tok b) (path_of_tok b) (str_of_tok u) with
+       | SHashed p -> "HASHED " ^ tok_of_path p | SError -> "ERROR" | SRaise -> "RAISE")
   | ["ext"; n] -> let s = str_of_tok n in
       tok_of_str (suffix s) ^ " " ^ tok_of_str (compound_suffix s) ^ " " ^ bool_tok (ext_ok cfg_write.v_allowed s)
   | _ -> "!badcmd"
